@@ -23,6 +23,14 @@ from vsym import scratch
 PHASES = ('conf', 'setup', 'act', 'before-assert', 'assert', 'cleanup')
 
 
+def getcwd() -> str:
+    """os.getcwd(), or a description if the current directory does not exist any more (a removed sandbox)"""
+    try:
+        return os.getcwd()
+    except OSError as e:
+        return '<no current directory: %s>' % type(e).__name__
+
+
 # ============================================================================= K1: documents of labelled elements
 
 _LABEL_CLASSES = []
@@ -364,7 +372,7 @@ def run_sequence(specs: Sequence[CaseSpec], environ_is_dict: bool, timeout_cfg, 
         os_services_access.new_for_current_os(), 2 ** 10, False, resolver)
     executor = processors.new_executor_that_should_not_pollute_current_processes(configuration)
 
-    cwd0 = os.getcwd()
+    cwd0 = getcwd()
     os_environ0 = tuple(sorted(os.environ.items()))
 
     def env_ok(e) -> bool:
@@ -392,23 +400,22 @@ def run_sequence(specs: Sequence[CaseSpec], environ_is_dict: bool, timeout_cfg, 
             if env is not None and hasattr(env, 'sds'):
                 sds = env.sds
             if sds is None:
-                if os.getcwd() != cwd0:
-                    bad('%r: cwd before the sandbox exists is %s' % (cell, os.getcwd()))
+                if getcwd() != cwd0:
+                    bad('%r: cwd before the sandbox exists is %s' % (cell, getcwd()))
             else:
                 root = str(sds.root_dir)
                 if st['own_root'] is None:
                     st['own_root'] = root
-                    if len(seq.roots) != n_roots_before + 1 or root != os.path.realpath(seq.roots[-1]):
-                        bad('%r: sandbox %s is not a new one' % (cell, root))
-                    if os.listdir(str(sds.act_dir)) or os.listdir(str(sds.user_tmp_dir)):
-                        bad('%r: act/ or tmp/ of a new sandbox is not empty' % (cell,))
-                    if os.getcwd() != str(sds.act_dir):
-                        bad('%r: cwd is %s' % (cell, os.getcwd()))
+                    if os.listdir(str(sds.act_dir)) or os.listdir(str(sds.user_tmp_dir)) or os.listdir(str(sds.result.root_dir)):
+                        bad('%r: act/, tmp/ or result/ of the sandbox of a case that has not done anything yet is not '
+                            'empty' % (cell,))
+                    if getcwd() != str(sds.act_dir):
+                        bad('%r: cwd is %s' % (cell, getcwd()))
                 else:
                     if root != st['own_root']:
                         bad('%r: sandbox changed' % (cell,))
-                    if os.getcwd() != str(sds.act_dir):
-                        bad('%r: cwd is %s' % (cell, os.getcwd()))
+                    if getcwd() != str(sds.act_dir):
+                        bad('%r: cwd is %s' % (cell, getcwd()))
                     if os.listdir(str(sds.act_dir)) or os.listdir(str(sds.user_tmp_dir)):
                         bad('%r: act/ or tmp/ not empty' % (cell,))
             if env is not None:
@@ -521,8 +528,8 @@ def run_sequence(specs: Sequence[CaseSpec], environ_is_dict: bool, timeout_cfg, 
         except Exception as e:  # noqa  an escaping exception is an observation
             co.status = 'EXCEPTION %s: %s' % (type(e).__name__, e)
         co.trace = list(plan.trace)
-        if os.getcwd() != cwd0:
-            co.problems.append('cwd after the case is %s' % os.getcwd())
+        if getcwd() != cwd0:
+            co.problems.append('cwd after the case is %s' % getcwd())
             os.chdir(cwd0)
         for r in seq.roots:
             if os.path.exists(r) and os.listdir(r):
@@ -557,11 +564,6 @@ def expected_status(spec: CaseSpec) -> str:
     if f == xh.OK:
         return 'PASS'
     return _status_of_fault(f)
-
-
-def expects_sandbox(spec: CaseSpec) -> bool:
-    """Reference (C03 / C04): a sandbox is created iff nothing fails before the validation before the sandbox is over"""
-    return spec.fault == 0 or spec.cell[:2] not in (('conf', 'main'), ('setup', 'pre'))
 
 
 def _status_of_fault(f: int) -> str:
@@ -650,7 +652,7 @@ class World:
     def call(self, args, stdin=None, stdout=None, stderr=None, env=None, timeout=None, shell=False, cwd=None, **extra):
         if cwd is not None:
             return self._preprocess(args, cwd, stdout, stderr, extra)
-        here = os.getcwd()
+        here = getcwd()
         eff = os.environ if env is None else env
         env_view = tuple(sorted((k, v) for k, v in eff.items() if k.startswith('VSYM_C17_')))
         root = self._sandbox_of(here)
@@ -734,7 +736,7 @@ class World:
         preprocessor.subprocess = self
         preprocessor.tempfile = L16._TempfileStub
         sandbox_dir_resolving.mk_tmp_dir_with_prefix = lambda prefix: world._resolver
-        cwd = os.getcwd()
+        cwd = getcwd()
         os.chdir(self.dir)
         had_base = os.environ.get(ENV_BASE_VAR_CLI)
         os.environ[ENV_BASE_VAR_CLI] = 'base'
@@ -745,7 +747,7 @@ class World:
                 rc = mp.execute(list(argv), StdOutputFiles(out, err))
             except Exception as e:  # noqa   an escaping exception is an observation
                 rc = 'EXCEPTION %s: %s' % (type(e).__name__, e)
-            cwd_after = os.getcwd()
+            cwd_after = getcwd()
         finally:
             (process_executor.subprocess, preprocessor.subprocess, preprocessor.tempfile,
              sandbox_dir_resolving.mk_tmp_dir_with_prefix) = saved
